@@ -10,6 +10,7 @@ import (
 	"sort"
 	"strconv"
 	"strings"
+	"verif/internal/coop"
 
 	"golang.org/x/mod/sumdb/tlog"
 
@@ -705,9 +706,87 @@ func Run(r *fw.Run) {
 	_, rd, _ := one(lg, 7, 2, []int64{0}, nil, nil, nil)
 	r.Sample(mkCase(7, 2, []int64{0}, []faultT{{2, "flip", 0}}, rd))
 	reuse(r, lg)
+	overlapReads(r, lg)
 	hugeTiles(r)
 	pathCases(r)
 }
+
+// overlapReads explores every interleaving (switching where the TileReader is called) of two reads on ONE
+// TileHashReader value, served honestly: both must return the true hashes.
+func overlapReads(r *fw.Run, lg *tlogx.Log) {
+	type job struct{ n, h int }
+	var jobs []job
+	for _, n := range []int{5, 13, 21, 22} {
+		for _, h := range []int{1, 2} {
+			jobs = append(jobs, job{n, h})
+		}
+	}
+	r.Bounds["overlapping_reads"] = "N in {5,13,21,22}, h in {1,2}: every ordered pair of single positions read through one TileHashReader, every interleaving at the TileReader callbacks"
+	fw.Parallel(len(jobs), func(ji int) {
+		n, h := jobs[ji].n, jobs[ji].h
+		l := fw.NewLocal()
+		defer r.Merge(l)
+		cache := map[tlog.Tile][]byte{}
+		count := int64(tlog.StoredHashCount(int64(n)))
+		tree := tlog.Tree{N: int64(n), Hash: lg.Root(n)}
+		for i := int64(0); i < count; i++ {
+			for j := int64(0); j < count; j++ {
+				l.States++
+				runs, _ := coop.Explore(func() ([]func(func()), func([]int, any)) {
+					vr := &yieldingTiles{inner: &reader{lg: lg, n: n, h: h, cache: cache}}
+					hr := tlog.TileHashReader(tree, vr)
+					var ra, rb string
+					mk := func(x int64, out *string) func(func()) {
+						return func(yield func()) {
+							vr.set(yield)
+							hs, err := hr.ReadHashes([]int64{x})
+							if err != nil || len(hs) != 1 || hs[0] != lg.Store[x] {
+								*out = fmt.Sprintf("read of position %d: err=%v", x, err)
+							}
+						}
+					}
+					return []func(func()){mk(i, &ra), mk(j, &rb)}, func(schedule []int, pan any) {
+						msg := ra
+						if msg == "" {
+							msg = rb
+						}
+						if pan != nil {
+							msg = fmt.Sprintf("panic: %v", pan)
+						}
+						if msg != "" {
+							c := mkCase(n, h, []int64{i, j}, nil, vr.inner)
+							c.Kind = "overlap"
+							r.Violation(key("overlap", n, h, []int64{i, j}, nil), fmt.Sprintf("two reads on one TileHashReader, served honestly, interleaving %v: %s", schedule, msg), c)
+						}
+					}
+				}, 100)
+				l.Execs += int64(runs)
+				l.Transitions += int64(runs)
+			}
+		}
+	})
+}
+
+// yieldingTiles wraps the harness TileReader: every ReadTiles call is a scheduling point before it looks
+// at its argument and before it returns. Which goroutine is running is tracked per goroutine id-free: each
+// proc installs its own yield function right before it calls into the reader (procs run one at a time).
+type yieldingTiles struct {
+	inner *reader
+	cur   func()
+}
+
+func (y *yieldingTiles) set(f func()) { y.cur = f }
+func (y *yieldingTiles) Height() int  { return y.inner.h }
+func (y *yieldingTiles) ReadTiles(tiles []tlog.Tile) ([][]byte, error) {
+	yield := y.cur // the running proc installed its own yield function before it got here
+	yield()
+	y.cur = yield // another proc may have run in between
+	d, err := y.inner.ReadTiles(tiles)
+	yield()
+	y.cur = yield
+	return d, err
+}
+func (y *yieldingTiles) SaveTiles(tiles []tlog.Tile, data [][]byte) { y.inner.SaveTiles(tiles, data) }
 
 // hugeTiles reads through tiles of virtual logs of identical records (one hash per level, so tiles and the
 // RFC 6962 tree hash of any size can be computed without storing anything) with up to 2^62 records: tile
